@@ -8,6 +8,9 @@ CONSTANTS
   KCfgs <- DefKCfgs
   Guard = "tangent"
   KAvg = "own"
+  AbExps = {4}
+  AbOrd = 4
+  AbFloor = 99
   OnlyBasis = TRUE
   Export = FALSE
 CONSTRAINT Emit
